@@ -19,13 +19,13 @@ PROPS = {
     "C05": {
         "theorems": ["prefix_confines", "symlink_target_confined_partial", "symlink_target_confined_full_fails", "rejected_is_escape", "escaping_name_rejected", "os_confined_linkfree", "os_confined_linkfree_strict", "os_confined_handle_writes", "symlink_created_inside_linkfree", "os_confined_with_inside_links_partial", "tame_step_partial", "os_confined_history_partial", "symlink_escapes_through_linked_parent", "symlink_escapes_after_rename"],
         "extra_modules": ["C05D"],
-        "streams": [{"name": "layers"}, {"name": "osmodel", "quick": ["-n", "400"], "thorough": ["-n", "6000"]}],
+        "streams": [{"name": "layers"}, {"name": "osmodel", "quick": ["-n", "400"], "thorough": ["-n", "24000"]}],
         "assumptions": LAYER_ASSUME + ["OS level: the osmodel stream in confine mode runs histories through a real PrefixFS(OSFS) over a temp directory whose initial tree holds no symlink (every link is created through the PrefixFS), with sentinel files in the directories above the prefix; escapes through relative links combined with symlinked directories or Rename are the open finding K-prefix-lexical-links"],
     },
     "C06": {
         "theorems": ["isHidden_complete", "isHidden_complete_comparable", "hidden_never_delegated", "hidden_refused", "rename_refused", "symlink_refused", "refusal_classes", "hidden_outcome_independent_of_existence", "rename_hidden_on_every_state", "symlink_hidden_on_every_state", "hidden_subtree_untouched_linkfree", "hidden_subtree_untouched_any_spelling"],
         "extra_modules": ["C06D"],
-        "streams": [{"name": "layers"}, {"name": "osmodel", "quick": ["-n", "300"], "thorough": ["-n", "5000"]}],
+        "streams": [{"name": "layers"}, {"name": "osmodel", "quick": ["-n", "300"], "thorough": ["-n", "20000"]}],
         "assumptions": LAYER_ASSUME,
     },
     "C14": {
@@ -37,7 +37,7 @@ PROPS = {
     "C15": {
         "theorems": ["isHidden_sound", "visible_of_outside", "nonhidden_delegates", "arguments_unchanged", "removeAll_transparent_linkfree_partial", "nonhidden_effect_equal", "hiddenPost_spec"],
         "extra_modules": ["C15D"],
-        "streams": [{"name": "layers"}, {"name": "osmodel", "quick": ["-n", "300"], "thorough": ["-n", "5000"]}],
+        "streams": [{"name": "layers"}, {"name": "osmodel", "quick": ["-n", "300"], "thorough": ["-n", "20000"]}],
         "assumptions": LAYER_ASSUME,
     },
     "C18": {
@@ -55,7 +55,7 @@ PROPS = {
     },
     "C01": {
         "theorems": ["rollback_touches_only_tracked", "removal_order", "restore_order", "nothing_tracked_after", "rollback_restores_linkfree_partial", "invariant_after_history", "rollback_returns_nil_linkfree_partial", "rollback_restores_symlink_leaves_partial"],
-        "streams": [{"name": "hist", "quick": ["-n", "900"], "thorough": ["-n", "8000"]}],
+        "streams": [{"name": "hist", "quick": ["-n", "900"], "thorough": ["-n", "32000"]}],
         "assumptions": HIST_ASSUME,
     },
     "C02": {
@@ -68,7 +68,7 @@ PROPS = {
                      "recoverable_at_every_crash_point_in_rollback_healthy_linkfree_partial",
                      "rollback_is_restore_then_cleanup", "restore_half_never_writes_backup", "cleanup_half_never_touches_base"],
         "extra_modules": ["C02R"],
-        "streams": [{"name": "hist", "quick": ["-n", "300"], "thorough": ["-n", "4000"]}],
+        "streams": [{"name": "hist", "quick": ["-n", "300"], "thorough": ["-n", "16000"]}],
         "assumptions": HIST_ASSUME,
     },
     "C03": {
@@ -76,59 +76,59 @@ PROPS = {
                      "transparent_linkfree_partial", "affects_only_named_entry", "readonly_changes_nothing_disk",
                      "removeAll_below_file_differs"],
         "extra_modules": ["C03T"],
-        "streams": [{"name": "hist", "quick": ["-n", "400"], "thorough": ["-n", "6000"]}, {"name": "osmodel", "quick": ["-n", "300"], "thorough": ["-n", "4000"]}],
+        "streams": [{"name": "hist", "quick": ["-n", "400"], "thorough": ["-n", "24000"]}, {"name": "osmodel", "quick": ["-n", "300"], "thorough": ["-n", "16000"]}],
         "assumptions": HIST_ASSUME + ["the reference side of transparent_linkfree_partial, Op.direct (Model/Direct.lean), is what the driver executes for the osmodel stream's commands, so it is compared with the real PrefixFS(OSFS) on every run", "reading adopted for RemoveAll below a file (ENOTDIR): counts as 'does not exist'"],
     },
     "C04": {
         "theorems": ["newWithFS_wiring", "base_view_never_names_loc", "backup_view_confined_to_loc", "loc_is_hidden"],
-        "streams": [{"name": "hist", "quick": ["-n", "400"], "thorough": ["-n", "6000"]}, {"name": "layers", "quick": ["-n", "10000"]}],
+        "streams": [{"name": "hist", "quick": ["-n", "400"], "thorough": ["-n", "24000"]}, {"name": "layers", "quick": ["-n", "10000"]}],
         "assumptions": HIST_ASSUME + LAYER_ASSUME,
     },
     "C07": {
         "theorems": ["rollback_total", "infos_reset", "second_rollback_noop", "next_transaction_fresh", "rollback_returns_nil_linkfree_partial", "backup_clean_after_rollback_linkfree_partial", "backup_empty_after_rollback_linkfree_partial", "backup_invariant_after_history"],
-        "streams": [{"name": "hist", "quick": ["-n", "300"], "thorough": ["-n", "5000"]}],
+        "streams": [{"name": "hist", "quick": ["-n", "300"], "thorough": ["-n", "20000"]}],
         "assumptions": HIST_ASSUME,
     },
     "C12": {
         "theorems": ["finfo_roundtrip", "nil_roundtrip", "mode_roundtrip", "time_roundtrip", "reload_identity", "restart_equiv"],
-        "streams": [{"name": "hist", "quick": ["-n", "300"], "thorough": ["-n", "5000"]}],
+        "streams": [{"name": "hist", "quick": ["-n", "300"], "thorough": ["-n", "20000"]}],
         "assumptions": HIST_ASSUME + ["encoding/json round-trips the fInfo struct (integers and one string): exercised with the real Marshal/Unmarshal, not proved"],
     },
     "C13": {
         "theorems": ["rollback_footprint", "cleanup_uses_remove_only", "rollback_leaves_unrelated_entries_alone", "foreign_entry_survives", "unnamed_file_keeps_content", "foreign_backup_content_survives"],
-        "streams": [{"name": "hist", "quick": ["-n", "300"], "thorough": ["-n", "5000"]}],
+        "streams": [{"name": "hist", "quick": ["-n", "300"], "thorough": ["-n", "20000"]}],
         "assumptions": HIST_ASSUME,
     },
     "C16": {
         "theorems": ["resolve_reads_only", "resolve_keeps_tracking", "chain_ends_in_path", "resolve_identity_without_links_partial", "resolve_empty", "resolve_exact_linkfree_partial"],
-        "streams": [{"name": "hist", "quick": ["-n", "400"], "thorough": ["-n", "6000"]}],
+        "streams": [{"name": "hist", "quick": ["-n", "400"], "thorough": ["-n", "24000"]}],
         "assumptions": HIST_ASSUME,
     },
     "C17": {
         "theorems": ["forceBackup_shape", "forceBackup_untracked", "forceBackup_base_readonly_partial", "forceBackup_rebaselines_linkfree_partial", "forceBackup_rebaselines_after_faults_linkfree_partial", "forceBackup_rebaselines_many_linkfree_partial"],
-        "streams": [{"name": "hist", "quick": ["-n", "300"], "thorough": ["-n", "5000"]}],
+        "streams": [{"name": "hist", "quick": ["-n", "300"], "thorough": ["-n", "20000"]}],
         "assumptions": HIST_ASSUME,
     },
     "C08": {
         "theorems": ["backup_never_mutates_base", "failed_backup_blocks", "failed_backup_blocks_rename", "copy_leaves_tracking_untouched", "later_rollback_still_restores_linkfree_partial"],
-        "streams": [{"name": "faults", "quick": ["-n", "40"], "thorough": ["-n", "400"]}],
+        "streams": [{"name": "faults", "quick": ["-n", "40"], "thorough": ["-n", "2000"]}],
         "assumptions": HIST_ASSUME + ["faults are injected by a wrapper around the backup filesystem that returns EIO without forwarding the call; the j-th occurrence of a call signature is addressed, so reordered read-only calls do not shift the plan"],
     },
     "C09": {
         "theorems": ["rollback_total", "success_means_every_step_succeeded", "restoreFile_propagates_open_error", "restoreSymlink_propagates_lstat_error", "success_means_restored_linkfree_partial", "unrestored_means_error_linkfree_partial"],
-        "streams": [{"name": "faults", "quick": ["-n", "40"], "thorough": ["-n", "400"]}],
+        "streams": [{"name": "faults", "quick": ["-n", "40"], "thorough": ["-n", "2000"]}],
         "assumptions": HIST_ASSUME + ["faults are injected on both filesystems incl. handle primitives (Read/Write/Close/Stat)"],
     },
     "C11": {
         "theorems": ["listing_stream", "eof_only_when_exhausted", "drain_returns_all", "listed_is_outside", "rename_ancestor_refused", "rename_onto_ancestor_refused", "removeAll_spares_hidden", "removeAll_removes_the_rest", "removeAll_succeeds"],
-        "streams": [{"name": "listing"}, {"name": "osmodel", "quick": ["-n", "300"], "thorough": ["-n", "5000"]}, {"name": "layers", "quick": ["-n", "12000"]}],
+        "streams": [{"name": "listing"}, {"name": "osmodel", "quick": ["-n", "300"], "thorough": ["-n", "20000"]}, {"name": "layers", "quick": ["-n", "12000"]}],
         "assumptions": LAYER_ASSUME + ["the directory stream of the underlying os.File returns every entry once, in a fixed order (taken from a plain Readdirnames(-1) of the same directory)"],
     },
     "C10": {
         "theorems": ["serialisable", "critical_sections_are_atomic", "lock_discipline", "lock_discipline_nonvacuous",
                      "concurrent_ops_serialise", "concurrent_rollback_restores_linkfree_partial"],
         "extra_modules": ["C10S"],
-        "streams": [{"name": "conc", "quick": ["-n", "25"], "thorough": ["-n", "300"]}],
+        "streams": [{"name": "conc", "quick": ["-n", "25"], "thorough": ["-n", "1500"]}],
         "assumptions": ["sync.Mutex provides mutual exclusion",
                         "Generated/LockFacts.lean is regenerated from /repo's Go AST on every run (go/ast extractor in harness/astfacts.go)",
                         "not exhibited by the model: Go-memory-model data races as such, writes through a handle after the creating call returned, read-only operations observing intermediate states of a running RemoveAll/Rollback"],
